@@ -508,7 +508,9 @@ def main():
         run.add_results(sres)
         PP.report_failures(run, sres, label)
         shutil.rmtree(PP._STATE.get("workdir", "/nonexistent"), ignore_errors=True)
-    run.trust("clang 14 constant evaluator and typed AST (x86-64, FLT_EVAL_METHOD 0)", "pydsdl model attributes (extent, bit_length_set, fixed_port_id, constants) as the DSDL definition",
+    from props import lean_glue
+    lean_glue.lemmas(run, "Glue.lean", ["L3_ceil_upper", "L3_ceil_tight", "L3_ceil_least", "L3_buffer_sufficient"], "(n + 7) / 8 is the least byte count holding n bits; a buffer of ceil(max/8) bytes holds every representation and is not larger than the extent")
+    run.trust("lean 4 (lemma L3, lean/Glue.lean)", "clang 14 constant evaluator and typed AST (x86-64, FLT_EVAL_METHOD 0)", "pydsdl model attributes (extent, bit_length_set, fixed_port_id, constants) as the DSDL definition",
               "z3 / cvc5", "E-PY, E-J and E-C semantics (vk/epy.py, vk/ej.py, vk/ec.py)", "bundled Jinja2 parser for the template ASTs")
     run.assume("per program: constants are compared on the corpus types (corpus/vkm, corpus/vk) for every exported name; the template obligations (E-J) hold for all types but cover only the integer metadata expressions",
                "the C++ and Python serializers are not under contract: sufficiency/refusal of the buffer size is proved for the C serializers only (with their contracts from C01)",
